@@ -216,6 +216,13 @@ def harnesses(tier, seed):
                                                    "pandas.DataFrame modelled by a list-backed stand-in with inverse to_dict/from_dict (replay uses real pandas)",
                                                    "string formatting executed on representative values (so None/%g errors are real); field-by-field comparison of the formatted arguments stands for string equality"],
                                       expect=['str-identical'] if diag != 'xk' else [], nproc=1, max_replays=3))
+    for int_resid in (False, True):
+        hs.append(Harness("x0-exit[n=1,m=2,int_resid=%d]" % int_resid, 'dfverif.checks.c02', 'body_x0block',
+                          params=dict(n=1, m=2, with_h=False, r0_old=False, int_resid=int_resid), cfg=core.Cfg(qtimeout_ms=20000, uflin=True),
+                          functions=['solver.solve_main'], home='C02',
+                          bounds="the x0 block of solve_main, n=1, m=2, up to 3 samples; residuals %s" % ('integers in [-1000,1000] (integer array)' if int_resid else 'reals'),
+                          assumptions=["the run ends at x0 (budget or small objective): the residual handed to the result object is a float64 array owned by the solver, "
+                                       "so to_dict/from_dict (which rebuild float64 arrays) reproduce it"], nproc=1, max_replays=2))
     return hs
 
 
